@@ -255,8 +255,9 @@ def run(ctx):
                               "table behind constants_ptr (a frame switch did not refresh it)",
                               {"profile": prof, "spec": d.get("spec"), "tag": d.get("tag")})
             if xr["unresolved"]:
-                ctx.violation("frame:code-pointers-not-owned-by-frame-function",
-                              "the running frame's bytecode/constants pointers do not belong to the function object it names",
+                ctx.violation("frame:code-pointers-do-not-belong-to-callee",
+                              f"{xr['unresolved']} instructions ran in a frame whose cached bytecode/constants pointers are not the "
+                              "buffers of the function object the frame denotes (e.g. a call-site cache entry filled with the wrong table)",
                               {"profile": prof, "spec": d.get("spec"), "tag": d.get("tag")})
         for o in O:
             stats["oob_events"] += 1
@@ -293,7 +294,7 @@ def run(ctx):
     ctx.cov["evaluations"] = tot_eval
     ctx.cov["distinct_nontrivial"] = len(distinct)
     ctx.cov["input_distribution"] = {"mutation_family_counts": dist, **{k: v for k, v in stats.items()}}
-    ctx.cov["rule"] = ("12 small programs compiled at -O0..-O3 by the real pipeline, each mutated by one of: as-is, jump retargeted to any word "
+    ctx.cov["rule"] = ("15 small programs (3 of them call-site-cache histories: global closure with a longer constant table than its caller, slow path / global store / miss / hit) compiled at -O0..-O3 by the real pipeline, all run unmutated first, then each mutated by one of: as-is, nested functions with upvalue descriptors at 0/k-1/k/k+1/255 from plain and closure frames, jump retargeted to any word "
                        "index (incl. len, len+1, -1), opcode byte of a cache word rewritten + jump into it, num_registers changed, stream "
                        "truncated / extended, operand or opcode byte rewritten, constants/upvalue descriptors changed, wrapped in 1-3 or "
                        "62-67 closure-calling wrappers (Call / CallCached), GetGlobal/SetGlobal with a small imm16 inside a wrapper, "
